@@ -222,6 +222,43 @@ async fn run_history(cx: &Ctx, w: &Value, log: &mut Vec<Value>, maxb: &mut u32) 
                 let (vis, dt, n) = observe(&cx, &idx);
                 log.push(json!({"e": "crash", "vis": vis, "dt": dt, "n": n}));
             }
+            "legacy" => {
+                // the durable state as a pre-manifest release left it: un-suffixed bucket objects (generation 0),
+                // metadata without a manifest; restart from it (the caller puts a clean flush in front)
+                let converted = {
+                    let d = durable.borrow();
+                    match &d.meta {
+                        None => None,
+                        Some(mbytes) => {
+                            #[derive(serde::Serialize)]
+                            struct MetaOut<'a> {
+                                metadata: &'a BM25Metadata,
+                            }
+                            let mut m: MetaWire = cbor2::from_reader(&mbytes[..]).expect("metadata decodes");
+                            let man = std::mem::take(&mut m.metadata.buckets);
+                            if man.is_empty() {
+                                None
+                            } else {
+                                let mut objects = BTreeMap::new();
+                                for (b, g) in &man {
+                                    if let Some(o) = d.objects.get(&(*b, *g)) {
+                                        objects.insert((*b, 0u64), o.clone());
+                                    }
+                                }
+                                let mut buf = Vec::new();
+                                cbor2::to_writer(&MetaOut { metadata: &m.metadata }, &mut buf).expect("metadata encodes");
+                                Some(Durable { objects, meta: Some(buf) })
+                            }
+                        }
+                    }
+                };
+                if let Some(nd) = converted {
+                    *durable.borrow_mut() = nd;
+                    idx = load(&durable.borrow()).await.expect("load");
+                    let (vis, dt, n) = observe(&cx, &idx);
+                    log.push(json!({"e": "legacy", "vis": vis, "dt": dt, "n": n}));
+                }
+            }
             "flush" => {
                 let at = op["at"].as_u64().unwrap_or(0) as usize;
                 let fault = match op["mode"].as_str().unwrap_or("clean") {
